@@ -343,10 +343,13 @@ def nestAff (j : Json) : Except String Json := do
           if calls.any fun (_, st', d', pre, post) => st' == some (st : Int) && d' == (d : Int) && pre == 0 && post == (h : Int) then []
           else [s!"no splitUniform({st}, depth={d}, post_halo={h}) for {nm} in the header (calls: {calls.map fun c => (c.2.1, c.2.2)})"]
         let rl := rangeLoops envF (ps.q ++ "1") [0, (ps.n : Int), 2 * (ps.n : Int)] s
+        -- a tensor carrying the partitioned rank itself (stride 1, no offset, no halo) is co-iterated at the lower level instead of
+        -- the range loop: its lower fiber lies inside the tile, so the tile tensor of the model does not change the iteration
+        let plainFollower := splits.any fun (_, _, st, h) => st == ps.n && h == 0
         let e2 := match rl.find? (·.1 == ps.q ++ "0") with
           | some (_, true) => []
           | some (_, false) => [s!"the range loop over {ps.q}0 does not run from {ps.q}1 to min({ps.q}1 + {ps.n}, extent)"]
-          | none => [s!"no iterRangeShapeRef loop over {ps.q}0"]
+          | none => if plainFollower then [] else [s!"no iterRangeShapeRef loop over {ps.q}0"]
         pure (e1 ++ e2)
     let errs := errs0 ++ errsP
     return Json.mkObj (base ++ [("skeleton_errors", jStrs errs),
